@@ -126,8 +126,11 @@ func (sc *SearchCache) CleanupExpired() int {
 
 // generateCacheKey creates a unique cache key for the query and options
 func (sc *SearchCache) generateCacheKey(query string, options SearchOptions) string {
-	// Normalize query for consistent caching
-	normalizedQuery := strings.ToLower(strings.TrimSpace(query))
+	// Normalize query for consistent caching. Only the letter case is folded:
+	// the engine ignores case, but the typo fallback matches the query as
+	// given, surrounding whitespace included, so padded queries keep an entry
+	// of their own
+	normalizedQuery := strings.ToLower(query)
 
 	// Create a deterministic key that includes all relevant options
 	keyData := struct {
